@@ -274,7 +274,8 @@ def _r3(chk, repo):
     ss = repo.cls(f"{PDE}:SteadyStateLinearPDE")
     ob = repo.method(ss, "observe")[1]
     sol = func_params(ob)[1]
-    obv = canon_fn(repo, ss, ob, 4)
+    from .common import canon_keep
+    obv = canon_keep(repo, ss, ob, set(), subst=True)        # private helpers inlined, temporaries substituted
     problems = []
     INT = f"interp1d(self.grid_sol,{sol},kind='quadratic')(self.grid_obs)"
     for eq, om in itertools.product((True, False), repeat=2):
